@@ -218,6 +218,25 @@ class _len(Contract):
                 ("temp_untouched", unchanged(c, *TEMP_FIELDS, "staged_exists", "h_open"))]
 
 
+@contract(_CS + "__iter__")
+class _iter(Contract):
+    """C04/C15/C16: iterating the storage reads the contents through the live handle from the start: whatever was still buffered is written out
+    first (the seek flushes it), so the reader sees old rows + buffered rows; nothing else changes"""
+    params = dict(self=CSV)
+    ret = Reader
+    modifies = ALLG
+    theories = ("cat",)
+    requires = staticmethod(_write.requires)
+    raises = io_raises(lambda c: [("fault_was_injected", FAULT(c)), ("contents_kept", same(view(c), old_view(c)))])
+
+    @staticmethod
+    def ensures(c):
+        return [("reader_will_see_the_contents", z3.And(same(f(c, "disk"), old_view(c)), l_len(f(c, "wbuf")) == 0)),
+                ("positioned_at_the_start", f(c, "at_start")),
+                ("file_bytes_unchanged_when_nothing_was_buffered", z3.Implies(l_len(f(c.old, "wbuf")) == 0, same(f(c, "disk"), f(c.old, "disk")))),
+                ("temp_untouched", unchanged(c, *TEMP_FIELDS, "staged_exists", "h_open"))]
+
+
 @contract(_CS + "_init_temp_storage")
 class _init_temp(Contract):
     """C04: the temporary file is created empty, in the storage's own encoding and newline mode (after fix 4ce462c)"""
